@@ -217,7 +217,7 @@ PROPS = {
               "new/delete cycle batch; distinct by descriptor hash; non-trivial when at least one buffer is non-empty "
               "(zero-size classes are counted separately in shape:*)"
              " Later additions have their own keys in by_case_class (DESIGN.md 5.1): call sequences and object life cycles, multi-threaded cases (also run under ThreadSanitizer), sweeps over every value of a size parameter, placement / alignment / data-structure modes drawn from the case hash."),
-        require={"all": ["concurrent_lifecycle_uses", "instrumented_calls", "scratch_bytes_exact", "object_cycles", "leak_check_rounds", "builtin_buffer_bytes_checked", "lifecycle_uses", "lifecycle_mass_objects_alive", "cases_with_buffers_exact_multiples_of_64GiB_apart", "cases_with_buffers_at_nearby_page_offsets",
+        require={"all": ["lopsided_small_products", "concurrent_lifecycle_uses", "instrumented_calls", "scratch_bytes_exact", "object_cycles", "leak_check_rounds", "builtin_buffer_bytes_checked", "lifecycle_uses", "lifecycle_mass_objects_alive", "cases_with_buffers_exact_multiples_of_64GiB_apart", "cases_with_buffers_at_nearby_page_offsets",
                          "memcheck_definedness_checks"]},
         assumptions=["every buffer is allocated at exactly the documented size (bytes_of_*, *_tmp_bytes) between "
                      "ASan-poisoned, canary-filled guard bands; misalignments are multiples of 8 bytes (16 for __int128)",
